@@ -82,6 +82,9 @@ def traceable(fed, yields) -> str | None:
             return "non-ASCII or control character"
         if "\r" in l.rstrip("\n").rstrip("\r") or "\f" in l or "\v" in l:
             return "exotic white space"
+    for l in fed:
+        if l.strip() == "&":
+            return "a line holding only '&' (not valid Fortran, F2018 6.3.2.4)"
     for y in yields:
         if y.lower().startswith("include "):
             return "unexpanded include"
@@ -131,3 +134,24 @@ def canon_items(yields, docmark="!"):
         else:
             out.append(("s", y))
     return out
+
+
+def suite_records(repo: str, timeout=900):
+    """Run the repository's own test-suite with the recording plugin (vlib/pytest_traces.py); returns the reader records."""
+    import subprocess
+    import sys
+    d = tempfile.mkdtemp(prefix="verif-suite-")
+    try:
+        out = os.path.join(d, "records.json")
+        env = dict(os.environ)
+        root = os.path.dirname(os.path.dirname(os.path.abspath(__file__)))
+        env.update({"FORD_VERIF_TRACE": "1", "VERIF_TRACE_OUT": out, "PYTHONPATH": root + os.pathsep + repo, "PYTHONDONTWRITEBYTECODE": "1"})
+        p = subprocess.run([sys.executable, "-m", "pytest", "-q", "-p", "no:cacheprovider", "-p", "vlib.pytest_traces", "--timeout=900",
+                            "--continue-on-collection-errors", "--basetemp", os.path.join(d, "bt")],
+                           cwd=repo, env=env, capture_output=True, text=True, timeout=timeout)
+        if not os.path.exists(out):
+            raise tlc.TLCFailure("suite trace recording produced no file:\n" + (p.stdout + p.stderr)[-800:])
+        with open(out) as f:
+            return json.load(f)["records"], (p.stdout.strip().splitlines() or [""])[-1]
+    finally:
+        shutil.rmtree(d, ignore_errors=True)
